@@ -43,6 +43,7 @@ type framesScenario struct {
 	Frames   []frameSc `json:"frames"`
 	Cut      int       `json:"cut"`
 	Tail     string    `json:"tail"`
+	Status   int       `json:"status"` // client side: HTTP status of the scripted response (0 = 200)
 	DoErr    bool      `json:"doerr"` // client side: HTTPClient.Do itself fails (no response at all)
 	Bidi     bool      `json:"bidi"`  // handler side, stream shape: a bidi handler (results read unlatched)
 	Trailers string    `json:"trailers"`
@@ -237,6 +238,9 @@ func runFrames(raw json.RawMessage, seed int64, rec *Rec) {
 		"proto": s.Proto, "side": s.Side, "shape": s.Shape, "raw": s.Raw, "reuse": s.Reuse, "limit": s.Limit,
 		"enc": s.Enc, "frames": s.Frames, "cut": s.Cut, "tail": s.Tail, "trailers": s.Trailers,
 	}
+	if s.Status != 0 {
+		sc["status"] = s.Status
+	}
 	scn := map[string]any{"script": s.Script, "eofwith": s.EofWith, "seed": seed}
 	for k, v := range sc {
 		scn[k] = v
@@ -285,7 +289,12 @@ func runFrames(raw json.RawMessage, seed int64, rec *Rec) {
 			if s.Enc != "none" && s.Enc != "" {
 				h.Set(encodingHeader(s.Proto, s.Raw), s.Enc)
 			}
-			return &http.Response{StatusCode: 200, Status: statusLine(200), ProtoMajor: 2, Header: h,
+			status := 200
+			if s.Status != 0 {
+				status = s.Status
+				h.Set("Content-Type", "application/json") // a unary Connect error body
+			}
+			return &http.Response{StatusCode: status, Status: statusLine(status), ProtoMajor: 2, Header: h,
 				Trailer: trailer, Body: body, Request: req}, nil
 		}
 		opts := clientProtoOpts(s.Proto)
